@@ -334,7 +334,13 @@ Inductive form :=
 | FAt (args : list val)                               (* n@[a b c] *)
 | FStaged (stages : list (list (option val)))         (* p::n(a;;); q::p(;c); q(b) : any number of stages *)
 | FStagedEach (stages : list (list (option val))) (vs : list val)    (* ... q'[v1 v2 ..] : the last stage is one value *)
-| FEach2 (xs ys : list val).                          (* xs n'ys : pairwise, stops at the shorter list *)
+| FEach2 (xs ys : list val)                           (* xs n'ys : pairwise, stops at the shorter list *)
+| FEachLeft (a b : val)                               (* a n:\b  : n(a;b1),...   or n(a;b) for an atom b *)
+| FEachRight (a b : val)                              (* a n:/b  : n(b1;a),...   or n(b;a) for an atom b *)
+| FEachPair (vs : list val)                           (* n:'vs   : n(v1;v2), n(v2;v3), ... *)
+| FOverN (a b : val)                                  (* a n/b   : fold from a; n(a;b) for an atom b; a for [] *)
+| FScan (vs : list val)                               (* n\vs    : v1, n(v1;v2), n(n(v1;v2);v3), ... *)
+| FScanN (a b : val).                                 (* a n\b   : a, n(a;b1), n(n(a;b1);b2), ... *)
 
 Definition apply_staged (fl : flags) (st : state) (n : Z) (stages : list (list (option val))) : state * res :=
   match all_some (merge stages) with
@@ -371,6 +377,42 @@ Fixpoint each2_loop (fl : flags) (st : state) (n : Z) (xs ys : list val) : state
   | _, _ => (st, Some [])
   end.
 
+(* n applied to each pair in turn *)
+Fixpoint pairs_loop (fl : flags) (st : state) (n : Z) (ps : list (val * val)) : state * option (list val) :=
+  match ps with
+  | [] => (st, Some [])
+  | (x, y) :: r =>
+      match apply_name fl st n [x; y] with
+      | (st1, RVal v) =>
+          match pairs_loop fl st1 n r with
+          | (st2, Some vs) => (st2, Some (v :: vs))
+          | (st2, None) => (st2, None)
+          end
+      | (st1, _) => (st1, None)
+      end
+  end.
+
+(* itertools.accumulate: the running results of a left fold *)
+Fixpoint scan_loop (fl : flags) (st : state) (n : Z) (acc : val) (vs : list val) : state * option (list val) :=
+  match vs with
+  | [] => (st, Some [])
+  | v :: r =>
+      match apply_name fl st n [acc; v] with
+      | (st1, RVal x) =>
+          match scan_loop fl st1 n x r with
+          | (st2, Some xs) => (st2, Some (x :: xs))
+          | (st2, None) => (st2, None)
+          end
+      | (st1, _) => (st1, None)
+      end
+  end.
+
+Definition list_res (x : state * option (list val)) (pre : list val) : state * res :=
+  match x with
+  | (st', Some rs) => (st', RVal (VList (pre ++ rs)))
+  | (st', None) => (st', RErr)
+  end.
+
 Definition run_form (fl : flags) (st : state) (n : Z) (f : form) : state * res :=
   match f with
   | FDirect args => apply_name fl st n args
@@ -395,6 +437,42 @@ Definition run_form (fl : flags) (st : state) (n : Z) (f : form) : state * res :
       match each2_loop fl st n xs ys with
       | (st', Some rs) => (st', RVal (VList rs))
       | (st', None) => (st', RErr)
+      end
+  | FEachLeft a b =>
+      match b with
+      | VList bs => list_res (pairs_loop fl st n (map (fun x => (a, x)) bs)) []
+      | _ => apply_name fl st n [a; b]
+      end
+  | FEachRight a b =>
+      match b with
+      | VList bs => list_res (pairs_loop fl st n (map (fun x => (x, a)) bs)) []
+      | _ => apply_name fl st n [b; a]
+      end
+  | FEachPair vs =>
+      match vs with
+      | [] | [_] => (st, RVal (VList vs))
+      | _ :: r => list_res (pairs_loop fl st n (combine vs r)) []
+      end
+  | FOverN a b =>
+      match b with
+      | VList [] => (st, RVal a)
+      | VList bs =>
+          match over_loop fl st n a bs with
+          | (st', Some x) => (st', RVal x)
+          | (st', None) => (st', RErr)
+          end
+      | _ => apply_name fl st n [a; b]
+      end
+  | FScan vs =>
+      match vs with
+      | [] => (st, RVal (VList []))
+      | v :: r => list_res (scan_loop fl st n v r) [v]
+      end
+  | FScanN a b =>
+      match b with
+      | VList [] => (st, RVal a)
+      | VList bs => list_res (scan_loop fl st n a bs) [a]
+      | _ => list_res (scan_loop fl st n a [b]) [a]
       end
   | FStagedEach stages vs =>
       match staged_each_loop fl st n stages vs with
